@@ -306,7 +306,7 @@ var c20Ops = []HOp{
 func init() { c20.Run = runC20 }
 
 func runC20(w *core.W) {
-	nmax := w.Pick(4, 5)
+	nmax := w.Pick(4, 6)
 	idx := 0
 	for n := 1; n <= nmax; n++ {
 		total := gen.Pow(len(c20Ops), n)
